@@ -432,6 +432,10 @@ func (p *Proxy) handleConnectRequest(ctx *Context, req *http.Request, session *S
 		// trip of any other request, without a tunnel behind the answer.
 		log.Debugf("martian: skipping round trip")
 		res = proxyutil.NewResponse(200, nil, req)
+	} else if p.Closing() {
+		// Shutdown began while the request was with the modifier: no tunnel is
+		// opened any more. The CONNECT is refused like one that cannot be dialled.
+		cerr = errors.New("martian: proxy is closing down")
 	} else {
 		res, cconn, cerr = p.connect(req)
 	}
